@@ -860,6 +860,11 @@ func (E *Engine) unop(fr *Frame, st *State, t *ssa.UnOp) Val {
 		case *Addr:
 			v = E.loadAddr(st, a)
 		case *Term:
+			if g, ok := t.X.(*ssa.Global); ok && g.Name() == "EnableUnsafeAssertions" && g.Pkg != nil && strings.HasSuffix(g.Pkg.Pkg.Path(), "/features") {
+				// E11: the CI-only switch that turns checks into log.Fatalf / panic is taken as off
+				E.note("features.EnableUnsafeAssertions (a CI-only switch that turns checks into panics) is taken as false (E11)")
+				return tb.False()
+			}
 			E.safety(fr, st, "nil", tb.Not(tb.Eq(a, E.null())), t)
 			elem := types.Unalias(E.subst(t.X.Type(), fr.tenv)).Underlying().(*types.Pointer).Elem()
 			v = E.loadObj(st, a, elem, fr.tenv)
